@@ -3,9 +3,10 @@ import Mltwist.Lemmas.EmulatorEval
 Emulator (C03, C04), part 8: the application of the evaluated effects (`recordOutput`, `State.Apply`,
 the `jumped` flag), `MustIP`, and one `Step` as a whole: on a state satisfying the invariant whose
 instruction pointer is known, `Step` returns an error exactly when no instruction starts at the
-instruction pointer and otherwise never panics (when all its memory accesses lie in the domain of C14);
+instruction pointer and otherwise never panics: it succeeds when all its memory accesses lie in the domain of C14 —
 the state first evolves by provider fills (while the effects are evaluated against the pre-state) and then
-by the program's writes.
+by the program's writes — and returns the access error otherwise, leaving a state that results from provider
+fills only (REPAIR F45: `checkStores_spec`, `step_total`).
 -/
 namespace Mltwist.Lemmas.Emulator
 open Mltwist Mltwist.State Mltwist.Overlay Mltwist.Emulator Mltwist.Spec.Overlay Mltwist.Interval
@@ -196,6 +197,49 @@ def StepDom (p : Provider) (code : CodeView) (s : State) (ins : Ins) : Prop :=
 /-- every expression of the instruction is well formed (widths between 1 and 255) -/
 def InsWF (ins : Ins) : Prop := ∀ ef ∈ ins.effects, Effect.wfE ef
 
+/-- every store of the instruction has a width between 1 and 255 (`expr.Width` is `uint8`; no instruction of the
+front end stores 0 bytes) -/
+def InsSW (ins : Ins) : Prop := ∀ v k a w, Effect.memStore v k a w ∈ ins.effects → 1 ≤ w ∧ w ≤ 255
+
+/-! ### the check of the stores (REPAIR F45) -/
+
+/-- the first loop of `Step` over the evaluated effects: it passes iff every store lies in the domain of C14,
+and otherwise stops the step at the first store that does not, before anything is applied -/
+theorem checkStores_spec (c : Ctx) (s : State) : ∀ efs : List Effect,
+    (∀ v k a w, Effect.memStore v k a w ∈ efs → 1 ≤ w ∧ w ≤ 255) →
+    (checkStores c (efs.map (evalEff s)) = .ok () ∧
+      ∀ v k a w, Effect.memStore v k (.const a) w ∈ efs.map (evalEff s) → InDom (leToNat a % 2 ^ 64) w) ∨
+    (∃ a w, checkStores c (efs.map (evalEff s)) = .error (.access c a w) ∧ 2 ^ 64 ≤ a + w ∧
+      ∃ v k ab, Effect.memStore v k (.const ab) w ∈ efs.map (evalEff s) ∧ a = leToNat ab % 2 ^ 64)
+  | [], _ => Or.inl ⟨rfl, fun _ _ _ _ h => nomatch h⟩
+  | .regStore v k w :: efs, hw => by
+    have hrest := checkStores_spec c s efs (fun v' k' a' w' h => hw v' k' a' w' (List.mem_cons_of_mem _ h))
+    simp only [List.map_cons, evalEff, checkStores]
+    rcases hrest with ⟨h1, h2⟩ | ⟨a0, w0, h1, h2, v', k', ab, hm, he⟩
+    · refine Or.inl ⟨h1, fun v' k' a' w' h => ?_⟩
+      rcases List.mem_cons.1 h with h | h
+      · cases h
+      · exact h2 v' k' a' w' h
+    · exact Or.inr ⟨a0, w0, h1, h2, v', k', ab, List.mem_cons_of_mem _ hm, he⟩
+  | .memStore v k a w :: efs, hw => by
+    have hw0 := hw v k a w (List.mem_cons_self ..)
+    have hrest := checkStores_spec c s efs (fun v' k' a' w' h => hw v' k' a' w' (List.mem_cons_of_mem _ h))
+    simp only [List.map_cons, evalEff, checkStores, Lemmas.State.constUint8]
+    have hlt : leToNat (valBytes s a) % 2 ^ 64 < 2 ^ 64 := Nat.mod_lt _ (by decide)
+    by_cases hin : leToNat (valBytes s a) % 2 ^ 64 + w < 2 ^ 64
+    · rw [accessBad_false hin]
+      simp only [Bool.false_eq_true, if_false]
+      rcases hrest with ⟨h1, h2⟩ | ⟨a0, w0, h1, h2, v', k', ab, hm, he⟩
+      · refine Or.inl ⟨h1, fun v' k' a' w' h => ?_⟩
+        rcases List.mem_cons.1 h with h | h
+        · cases h
+          exact ⟨hw0.1, hw0.2, hin⟩
+        · exact h2 v' k' a' w' h
+      · exact Or.inr ⟨a0, w0, h1, h2, v', k', ab, List.mem_cons_of_mem _ hm, he⟩
+    · rw [accessBad_true hlt (by omega) (by omega)]
+      simp only [if_true]
+      exact Or.inr ⟨_, w, rfl, by omega, _, k, _, List.mem_cons_self .., rfl⟩
+
 /-- the fall-through of `Step` -/
 def finish (ins : Ins) (jumped : Bool) (s : State) : State :=
   if jumped then s else { s with regs := s.regs.store ipKey (addrConst ins.end_) addrWidth }
@@ -246,21 +290,43 @@ theorem step_err (p : Provider) (code : CodeView) {s : State} {c : List UInt8}
   rw [mustIP_spec hip]
   simp only [hl]
 
-/-- an instruction at the instruction pointer: `Step` succeeds; the state evolves by the provider fills
-`log` (to `s1`, against which all effects are evaluated) and then by the writes of the evaluated effects -/
-theorem step_ok (p : Provider) (code : CodeView) {s : State} {c : List UInt8} {ins : Ins} (hi : Inv s)
+/-- AN INSTRUCTION AT THE INSTRUCTION POINTER, ANY ACCESSES (REPAIR F45): `Step` never panics.  Either it succeeds —
+the state evolves by the provider fills `log` (to `s1`, against which all effects are evaluated) and then by the
+writes of the evaluated effects — or it returns the access error: an access `[a, a+w)` of the instruction does not
+fit the address space (so the step is outside the domain condition `StepDom`); the state it leaves, `s1`, results
+from `s` by the provider fills `log` ONLY: no effect was applied, the instruction pointer was not written -/
+theorem step_total (p : Provider) (code : CodeView) {s : State} {c : List UInt8} {ins : Ins} (hi : Inv s)
     (hip : assocGet ipKey s.regs = some (.const c)) (hl : code.lookup (leToNat c % 2 ^ 64) = some ins)
-    (hw : InsWF ins) (hd : StepDom p code s ins) :
-    ∃ s1 s2 log rep,
+    (hw : InsWF ins) (hsw : InsSW ins) :
+    (∃ s1 s2 log rep,
       step p code s = .ok (finish ins (ins.effects.any isJump) s2) rep log ∧
       Fill p s log s1 ∧ Inv s1 ∧
       Applied s1 (ins.effects.map (evalEff s1)) s2 ∧ Inv s2 ∧
       PresentAll s1 (evalOrders ins.effects) ∧
       recordAll (noteExprs s1 {} (evalOrders ins.effects)) (ins.effects.map (evalEff s1)) = some rep ∧
-      (∀ r ∈ log, (∃ e ∈ evalOrders ins.effects, RegReqOf code (regLoads e) r) ∨ ∃ k a w, r = Req.mem k a w) := by
-  obtain ⟨c1, h1, o1⟩ := evalEffects_spec p code ins.effects { st := s } hi hw hd.1
+      (∀ r ∈ log, (∃ e ∈ evalOrders ins.effects, RegReqOf code (regLoads e) r) ∨ ∃ k a w, r = Req.mem k a w)) ∨
+    (∃ s1 log a w, step p code s = .accessErr s1 log a w ∧ Fill p s log s1 ∧ Inv s1 ∧ 2 ^ 64 ≤ a + w ∧
+      ¬ StepDom p code s ins) := by
+  rcases evalEffects_total p code ins.effects { st := s } hi hw with ⟨c1, h1, o1⟩ | ⟨c1, a0, w0, h1, s1, hnd⟩
+  rotate_left
+  · -- a load leaves the address space
+    obtain ⟨l, hl1, hf⟩ := s1.log
+    have hlog : c1.log = l := by simpa using hl1
+    refine Or.inr ⟨c1.st, l, a0, w0, ?_, hf, s1.inv, s1.bad, fun hd => hnd hd.1⟩
+    unfold step
+    rw [mustIP_spec hip]
+    simp only [hl, h1, recovered, hlog]
   obtain ⟨l, hl1, hf, hq⟩ := o1.log
   have hlog : c1.log = l := by simpa using hl1
+  rcases checkStores_spec c1 c1.st ins.effects hsw with ⟨hcs, hdom⟩ | ⟨a0, w0, hcs, hbad, v, k, ab, hm, he⟩
+  rotate_left
+  · -- a store leaves the address space
+    refine Or.inr ⟨c1.st, l, a0, w0, ?_, hf, o1.inv, hbad, fun hd => ?_⟩
+    · unfold step
+      rw [mustIP_spec hip]
+      simp only [hl, h1, hcs, recovered, hlog]
+    · have := (hd.2 _ c1 h1 v k ab w0 hm).2.2
+      omega
   have hok : ∀ ef ∈ ins.effects.map (evalEff c1.st), EvOK ef := by
     intro ef hef
     obtain ⟨ef0, h0, rfl⟩ := List.mem_map.1 hef
@@ -271,13 +337,35 @@ theorem step_ok (p : Provider) (code : CodeView) {s : State} {c : List UInt8} {i
       have hlen := valBytes_length c1.st v
       have hwd := wf_width v hwf.1
       refine ⟨_, _, rfl, rfl, by rw [hlen]; exact hwd.1, by rw [hlen]; exact hwd.2, ?_⟩
-      exact hd.2 _ c1 h1 _ k _ w hef
+      exact hdom _ k _ w hef
   obtain ⟨s2, rep, g1, g2, g3, g4⟩ := applyAll_spec (ins.effects.map (evalEff c1.st)) c1.st c1.rep false o1.inv hok
-  refine ⟨c1.st, s2, l, rep, ?_, hf, o1.inv, g2, g3, o1.present, ?_, hq⟩
+  refine Or.inl ⟨c1.st, s2, l, rep, ?_, hf, o1.inv, g2, g3, o1.present, ?_, hq⟩
   · unfold step
     rw [mustIP_spec hip]
-    simp only [hl, h1, g1, Bool.false_or, any_isJump_map, hlog]
+    simp only [hl, h1, hcs, g1, Bool.false_or, any_isJump_map, hlog]
     rfl
   · rw [← o1.rep]; exact g4
+
+/-- … in particular: when all accesses of the step lie in the domain of C14, `Step` succeeds -/
+theorem step_ok (p : Provider) (code : CodeView) {s : State} {c : List UInt8} {ins : Ins} (hi : Inv s)
+    (hip : assocGet ipKey s.regs = some (.const c)) (hl : code.lookup (leToNat c % 2 ^ 64) = some ins)
+    (hw : InsWF ins) (hd : StepDom p code s ins) :
+    ∃ s1 s2 log rep,
+      step p code s = .ok (finish ins (ins.effects.any isJump) s2) rep log ∧
+      Fill p s log s1 ∧ Inv s1 ∧
+      Applied s1 (ins.effects.map (evalEff s1)) s2 ∧ Inv s2 ∧
+      PresentAll s1 (evalOrders ins.effects) ∧
+      recordAll (noteExprs s1 {} (evalOrders ins.effects)) (ins.effects.map (evalEff s1)) = some rep ∧
+      (∀ r ∈ log, (∃ e ∈ evalOrders ins.effects, RegReqOf code (regLoads e) r) ∨ ∃ k a w, r = Req.mem k a w) := by
+  -- the widths of the stores are part of the domain condition
+  have hsw : InsSW ins := by
+    intro v k a w hm
+    obtain ⟨c1, h1, _⟩ := evalEffects_spec p code ins.effects { st := s } hi hw hd.1
+    have := hd.2 _ c1 h1 (.const (valBytes c1.st v)) k (valBytes c1.st a) w
+      (List.mem_map.2 ⟨_, hm, rfl⟩)
+    exact ⟨this.1, this.2.1⟩
+  rcases step_total p code hi hip hl hw hsw with h | ⟨_, _, _, _, _, _, _, _, hnd⟩
+  · exact h
+  · exact absurd hd hnd
 
 end Mltwist.Lemmas.Emulator
